@@ -1,11 +1,9 @@
 ---------------------------- MODULE MC_Datalog ----------------------------
-(* Model-checking harness: programs come from the file named by VF_PROGRAMS; *)
+(* Model-checking harness: programs are inlined by a generated module MCD_*; *)
 (* every terminal state prints its EDB and model as one JSON line.           *)
-EXTENDS Datalog, Json, IOUtils
+EXTENDS Datalog, Json
 
-ProgramsFromFile == JsonDeserialize(IOEnv.VF_PROGRAMS)
-
-ASSUME \A i \in 1..Len(ProgramsFromFile) : ValidStratification(ProgramsFromFile[i])
+ASSUME \A i \in 1..Len(Programs) : ValidStratification(Programs[i])
 
 OutRels == {P.rels[i].name : i \in {j \in 1..Len(P.rels) : P.rels[j].output}}
 Emit == Finished =>
